@@ -189,6 +189,28 @@ def rule_name_guards(ctx: Ctx):
                        f"a pattern alternative is built from a party / resolved name only if the value is truthy and passes is_valid_name, and it is "
                        f"re.escape()d (conditions `{conds[:90]}`, escaped={esc})", node=n, mod=fm)
                 sites.append(("comp", ok))
+            # two-step form: {key: value for key in .. if (value := getattr(..)) and is_valid_name(value)} collects the validated names,
+            # and the alternatives are built from that dict's items with re.escape
+            if isinstance(n, ast.DictComp) and any("getattr" in norm(i) for g in n.generators for i in g.ifs):
+                conds = " and ".join(norm(i) for g in n.generators for i in g.ifs)
+                W = next((x.target.id for g in n.generators for i in g.ifs for x in ast.walk(i) if isinstance(x, ast.NamedExpr)), "value")
+                par = getattr(n, "parent", None)
+                D = par.targets[0].id if isinstance(par, ast.Assign) and len(par.targets) == 1 and isinstance(par.targets[0], ast.Name) else None
+                builders = [c_ for c_ in walk_local(fn) if isinstance(c_, ast.ListComp) and len(c_.generators) == 1 and norm(c_.generators[0].iter) == f"{D}.items()"
+                            and isinstance(c_.generators[0].target, ast.Tuple) and len(c_.generators[0].target.elts) == 2]
+                rebound = [x for x in stmts_local(fn.body) if isinstance(x, (ast.Assign, ast.AugAssign)) and D in assigned_names(x) and x is not par] if D else [1]
+                mutated = [c_ for c_ in walk_local(fn) if isinstance(c_, ast.Call) and isinstance(c_.func, ast.Attribute) and norm(c_.func.value) == D
+                           and c_.func.attr in ("update", "setdefault", "pop", "clear", "popitem")] + [x for x in walk_local(fn) if isinstance(x, ast.Subscript)
+                           and isinstance(x.ctx, (ast.Store, ast.Del)) and norm(x.value) == D]
+                if D and builders and norm(n.value) == W:
+                    found = True
+                    V2 = norm(builders[0].generators[0].target.elts[1])
+                    esc = f"re.escape({V2})" in norm(builders[0].elt)
+                    ok = f"is_valid_name({W})" in conds and f"{W} := getattr" in conds and esc and not rebound and not mutated and not builders[0].generators[0].ifs
+                    ctx.ob("R-C19-4", f"find.{name}/name-guard", ok,
+                           f"the names collected in `{D}` are truthy and pass is_valid_name (`{conds[:90]}`); the alternatives are built from its items, "
+                           f"re.escape()d ({esc}); `{D}` is not changed in between", node=n, mod=fm)
+                    sites.append(("comp", ok))
             # statement form: regexes.append(...) in a loop with `continue` guards
             if isinstance(n, ast.Call) and isinstance(n.func, ast.Attribute) and n.func.attr == "append" and n.args \
                     and "?P<" in norm(n.args[0]):
